@@ -157,7 +157,7 @@ func applyHdr(p string, h *tar.Header) error {
 	return fsmodel.Utime(p, h.ModTime.UnixNano())
 }
 
-func judgeC17(c c11Case) (string, string) {
+func judgeC17Raw(c c11Case) (string, string) {
 	root := scratch.Dir("tar")
 	defer scratch.Remove(root)
 	srcDir, out := filepath.Join(root, "src"), filepath.Join(root, "out")
@@ -598,4 +598,14 @@ func (r *shortReader) Read(b []byte) (int, error) {
 		b = b[:r.n]
 	}
 	return r.ReadCloser.Read(b)
+}
+
+// judgeC17 is judgeC17Raw with a panic of the code under test turned into a verdict (never a crash of the check).
+func judgeC17(c c11Case) (k, m string) {
+	defer func() {
+		if r := recover(); r != nil {
+			k, m = "panic", fmt.Sprintf("the code under test panicked: %v", r)
+		}
+	}()
+	return judgeC17Raw(c)
 }
